@@ -588,7 +588,6 @@ class PeerConnection:
                 new_buffer: bytes = self._read_buffer_queue.get(True, 5)
                 self.logger.debug(f"read {len(new_buffer)} bytes")
                 self._read_buffer += new_buffer
-                self.reset_last_read()
             except queue.Empty:
                 continue
 
